@@ -213,6 +213,7 @@ SIZED_RELS = ["drop", "clone", "raw", "dyn", "unsize", "offset", "offset_back", 
 HS_CTORS = ["iter", "slice", "vec", "uninit"]
 HS_RELS = ["drop", "clone", "raw", "unique"]
 THIN_CTORS = ["slice", "iter", "fat_slice"]
+THIN_BAD_CTORS = ["fat_bad", "fat_bad_short"]      # recorded length != slice length: into_thin must refuse
 THIN_RELS = ["drop", "clone", "from_thin", "protected", "raw", "refcnt"]
 SLICE_CTORS = ["from_ref", "from_vec", "iter_exact", "iter_unknown", "uninit", "uniq_uninit"]
 SLICE_RELS = ["drop", "clone", "raw", "erase", "erase_drop"]
@@ -226,7 +227,7 @@ SIZED_MODEL_CTOR = {"new": "new", "from_t": "new", "uniq_new": "new", "arc_unini
                     "frombox": "frombox", "uniq_uninit": "uniq_uninit"}
 SLICE_MODEL_CTOR = {"from_ref": "from_ref", "from_vec": "from_vec", "iter_exact": "iter_exact",
                     "iter_unknown": "iter_unknown", "uninit": "uninit", "uniq_uninit": "uninit"}
-THIN_MODEL_CTOR = {"slice": "slice", "iter": "iter", "fat_slice": "slice"}
+THIN_MODEL_CTOR = {"slice": "slice", "iter": "iter", "fat_slice": "slice", "fat_bad": "badlen", "fat_bad_short": "badlen"}
 
 
 class Case:
@@ -374,6 +375,9 @@ def gen_cases(sh, rng, tier, want=("sized", "hs", "thin", "slice", "str", "union
                                 cases.append(mk_thin(sh, h, t, ln, c, r, seed()))
             else:
                 cases.append(mk_thin(sh, h, t, rng.choice(LENS), rng.choice(THIN_CTORS), rng.choice(rels), seed()))
+            # into_thin of a fat Arc whose recorded length disagrees: every pair, a small and a larger length
+            for c in THIN_BAD_CTORS:
+                cases.append(mk_thin(sh, h, t, rng.choice([0, 1, 1, 2, 3, 8]), c, "drop", seed()))
     if "slice" in want:
         diag = set(rng.sample(range(n), 6)) if not full else set(range(n))
         for t in range(n):
@@ -528,6 +532,8 @@ def compare(case, impl, model):
         return bad
     if ist != mst:
         bad.append(("C05", "st", ist, mst))
+        if case.kind == "thin":
+            bad.append(("C10", "st", ist, mst))
         return bad
     if ist != "ok":
         # both refuse with the same class: nothing must have been allocated before the refusal
@@ -743,6 +749,24 @@ def monitor(case, impl, sh):
     if impl.get("unwrap") == "err":
         fail("C11", "sole owner could not be unwrapped")
 
+    # C10: a ThinArc is an exact stand-in for the fat Arc --------------------------------------------
+    if kind == "thin":
+        if m.get("ctor") in THIN_BAD_CTORS:
+            zst = sh.size(m["T"]) == 0
+            if st == "ok":
+                fail("C10", "into_thin ACCEPTED a fat Arc whose recorded length (%s) disagrees with its slice length %d: stored length %s, slice seen through the ThinArc has %s elements"
+                     % ("len+1" if m["ctor"] == "fat_bad" else "len-1 (7 for an empty slice)", m["len"], impl.get("lenv"), impl.get("slen")))
+            elif not zst and st != "panic:length-mismatch":
+                fail("C10", "into_thin of a fat Arc with a disagreeing recorded length ended as %s instead of the length panic" % st)
+            if "leaked" in impl:
+                fail("C10", "into_thin refused the Arc but did not release it: block %s is left allocated" % impl.get("leaked"))
+        # what the layout monitors say about a thin case is C10's "same header and elements at the same addresses,
+        # stored length = real length, thin->fat->thin keeps the allocation and the count" (the known deviation of the
+        # raw ThinArc pointer is C11's alone)
+        for x in list(f):
+            if x["prop"] in ("C05", "C06", "C11") and x.get("accessor") not in THIN_RAW_ACCESSORS.values():
+                f.append(dict(x, prop="C10"))
+
     # C12 (arithmetic): tag ---------------------------------------------------------------------------
     if kind == "union":
         which = m["which"]
@@ -952,6 +976,35 @@ def contents_pass(ctx):
     st = {"cases": sum(len(r.cases) for r in results), "constructor_cases": sum(1 for r in results for c in r.cases if c.meta.get("ctor")),
           "content_failures": len(fails), "crashes": len(crashed)}
     return (not fails and not crashed), st, texts
+
+
+def thin_pass(ctx):
+    """For c10.py: ThinArc over the shape matrix (over-aligned / byte-sized / zero-sized headers and elements,
+    every constructor incl. `into_thin` of a fat Arc, with a correct and with a disagreeing recorded length),
+    in the dev profile and with release semantics.  Returns (ok, stats, failures) like c12_pairs."""
+    drv = common.lean_exe("drv_layout")
+    variants = ["dbg", "rel-o0"] if not ctx.thorough() else ["dbg-full", "rel-o0", "rel"]
+    bins = build_variants(ctx, variants)
+    failures, stats = [], {"cases": 0, "bad_length_cases": 0, "configs": variants}
+    okall = True
+    for v in variants:
+        sh = Shapes(bins[v])
+        rng = random.Random(_seed_for(ctx, v) + 10)
+        cases = gen_cases(sh, rng, "thorough" if ctx.thorough() and v != "rel" else "quick", want=("thin",))
+        r = execute(bins[v], drv, sh, cases, config=v + "[thin]")
+        stats["cases"] += len(cases)
+        stats["bad_length_cases"] += sum(1 for c in cases if c.meta.get("ctor") in THIN_BAD_CTORS)
+        crashed = lambda i: r.impl[i].get("st", "").startswith("crash")
+        mine = [(i, fl) for i, fl in r.failures if fl["prop"] == "C10" or crashed(i)]
+        for i, fl in sorted(mine, key=lambda x: (crashed(x[0]), case_weight(r.cases[x[0]])))[:6]:
+            failures.append({"found_input": True, "text": "configuration %s\n" % v + describe(r, i, sh) + "\nproperty violated: " + fl["what"]})
+        mm = [(i, [x for x in m2 if x[0] == "C10"]) for i, m2 in r.mismatch]
+        mm = [(i, x) for i, x in mm if x]
+        for i, x in mm[:3]:
+            failures.append({"found_input": False, "text": "configuration %s\n" % v + describe(r, i, sh) + "\nmodel/impl disagree on: " + str(x)})
+        okall = okall and not mine and not mm
+        stats.setdefault("samples", []).append({"case": cases[len(cases) // 2].line, "impl": r.impl_raw[len(cases) // 2][:300]})
+    return okall, stats, failures
 
 
 # ------------------------------------------------------------------------------------------------
